@@ -109,6 +109,7 @@ func cmdCheck(args []string) int {
 	seenNames := map[string]bool{}
 	nObl, nDis, nCover, nKnown := 0, 0, 0, 0
 	var solverS float64
+	nCoverUnknown := 0
 	nReplays, maxReplays := 0, 4
 	if *thorough {
 		maxReplays = 16
@@ -145,7 +146,7 @@ func cmdCheck(args []string) int {
 		fmt.Printf("  failed obligation: %s [%s] %s\n", name, cfg, reason)
 	}
 	for _, cfg := range configs {
-		out, err := runProperty(*repo, *prop, cfg, timeoutS, filepath.Join(scratch, cfg.Name), "")
+		out, err := runProperty(*repo, *prop, cfg, timeoutS, filepath.Join(scratch, cfg.Name), "", *thorough || *updateLedger)
 		if err != nil {
 			name := "load:" + cfg.Name
 			violate(name, cfg.Name, nil, nil, "contracts or code no longer load: "+err.Error(), nil)
@@ -163,23 +164,35 @@ func cmdCheck(args []string) int {
 			for _, n := range u.Notes {
 				notes[n] = true
 			}
+			lk := cfg.Name
+			if u.Contract != nil && u.Contract.Flags["thorough"] {
+				lk += "+thorough"
+			}
 			if u.Failed != "" {
 				nObl++
-				seenNames[cfg.Name+"|"+u.Name+"#encode"] = true
+				seenNames[lk+"|"+u.Name+"#encode"] = true
 				violate(u.Name+"#encode", cfg.Name, nil, u, "unit cannot be encoded: "+u.Failed, out.World)
 			} else {
-				seenNames[cfg.Name+"|"+u.Name+"#encode"] = true
+				seenNames[lk+"|"+u.Name+"#encode"] = true
 			}
 		}
 		for _, r := range out.Results {
 			if !strings.Contains(r.Obl.Name, "/auto:") { // inferred invariants are not part of the specified obligation set
-				seenNames[cfg.Name+"|"+r.Obl.Name] = true
+				lk := cfg.Name
+				if r.Unit.Contract != nil && r.Unit.Contract.Flags["thorough"] {
+					lk += "+thorough"
+				}
+				seenNames[lk+"|"+r.Obl.Name] = true
 			}
 			oe := oblEvidence{Name: r.Obl.Name, Class: r.Obl.Class, Config: cfg.Name, Status: r.Status, Solver: r.Solver, Ms: r.Ms, VCBytes: r.VCBytes}
 			obls = append(obls, oe)
 			if r.Obl.IsCover {
 				nCover++
-				if r.Status != "cover-ok" {
+				if r.Status == "cover-unknown" {
+					nCoverUnknown++
+					notes["vacuity guard "+r.Obl.Name+" undecided within the time limit ("+r.Answer+")"] = true
+				}
+				if r.Status == "cover-failed" {
 					violate(r.Obl.Name, cfg.Name, r, r.Unit, "vacuity guard: the assumptions of this unit are not satisfiable ("+r.Answer+")", out.World)
 				}
 				continue
@@ -219,7 +232,7 @@ func cmdCheck(args []string) int {
 			cfgName := strings.SplitN(n, "|", 2)[0]
 			inRun := false
 			for _, c := range configs {
-				if c.Name == cfgName {
+				if c.Name == cfgName || *thorough && c.Name+"+thorough" == cfgName {
 					inRun = true
 				}
 			}
@@ -282,6 +295,7 @@ func cmdCheck(args []string) int {
 			"samples":                    samples,
 			"functions_under_contract":   fl,
 			"covers_checked":             nCover,
+			"covers_undecided":           nCoverUnknown,
 			"known_finding_obligations":  nKnown,
 			"configurations":             configs,
 			"per_obligation":             obls,
